@@ -17,8 +17,9 @@ Open Scope N_scope.
 Theorem C18_offsets_exact : forall i : input,
   let '(bytes, off, tbl) := body_of i in
   off = lenN bytes /\
-  Forall (fun x => e_free x = false /\
-                   exists rest, dropN (e_a x) (layout i) = obj_header (i_eol i) (e_nr x) (e_b x) ++ rest) tbl /\
+  Forall2 (fun o x => e_nr x = o_nr o /\ e_b x = o_xgen o /\ e_free x = false /\
+                      exists rest, dropN (e_a x) (layout i) = obj_header (i_eol i) (e_nr x) (o_gen o) ++ rest)
+          (i_objs i) tbl /\
   dropN off (layout i) = xref_section (i_eol i) (xents i) (i_tpre i) (i_size i) off.
 Proof. exact offsets_exact. Qed.
 Print Assumptions C18_offsets_exact.
@@ -89,7 +90,7 @@ Print Assumptions C18_int64ToBuf_roundtrip.
    checker rejects at the /Size stage, although everything else about the input is well-formed. *)
 Definition size_witness : input :=
   mk_input 1 7 LF
-    [mk_obj 1 0 [60;60;62;62]; mk_obj 3 0 [110;117;108;108]; mk_obj 2 0 [91;93]]
+    [mk_obj 1 0 0 [60;60;62;62]; mk_obj 3 0 0 [110;117;108;108]; mk_obj 2 0 0 [91;93]]
     [mk_ent 0 4 65535 true; mk_ent 4 0 1 true] 6 [47;82;111;111;116;32;49;32;48;32;82].
 Theorem C18_size_refuted : exists i : input,
   i_vmaj i < 10 /\ i_vmin i < 10 /\ forallb e_free (i_frees i) = true /\
@@ -98,12 +99,27 @@ Theorem C18_size_refuted : exists i : input,
 Proof. exists size_witness. vm_compute. repeat split; congruence. Qed.
 Print Assumptions C18_size_refuted.
 
+(* (10) REFUTED at full strength: the generation printed in the xref entry is the table entry's, the one
+   in the object header is the caller's; nothing in the writer makes them equal.  This is what happens
+   when writeNullObject materialises a stale reference "4 0 R" to a free entry of generation 2
+   (UndeleteObject leaves generation 1): the checker rejects at the entry/object stage. *)
+Definition gen_witness : input :=
+  mk_input 1 7 LF
+    [mk_obj 1 0 0 [60;60;62;62]; mk_obj 3 0 0 [110;117;108;108]; mk_obj 4 0 1 [110;117;108;108]; mk_obj 2 0 0 [91;93]]
+    [mk_ent 0 0 65535 true] 5 [47;82;111;111;116;32;49;32;48;32;82].
+Theorem C18_generation_refuted : exists i : input,
+  i_vmaj i < 10 /\ i_vmin i < 10 /\ forallb e_free (i_frees i) = true /\
+  table_ok (i_size i) 0 (xents i) = true /\
+  check_stage (layout i) = 5 /\ check_file (layout i) = false.
+Proof. exists gen_witness. vm_compute. repeat split; congruence. Qed.
+Print Assumptions C18_generation_refuted.
+
 (* non-vacuity: [wf] is satisfiable (all three EOL styles, several subsections, a free chain), and the
    checker rejects a file with one byte prepended (header) or inserted into the first object (startxref
    then no longer points at "xref") *)
 Definition sample (e : eolk) : input :=
   mk_input 1 7 e
-    [mk_obj 1 0 [60;60;62;62]; mk_obj 4 0 [1;2;3]; mk_obj 3 7 []; mk_obj 2 0 [5]; mk_obj 9 0 [7]]
+    [mk_obj 1 0 0 [60;60;62;62]; mk_obj 4 0 0 [1;2;3]; mk_obj 3 7 7 []; mk_obj 2 0 0 [5]; mk_obj 9 0 0 [7]]
     [mk_ent 0 6 65535 true; mk_ent 6 0 1 true] 10 [47;82;32;49].
 Example C18_nonvacuous :
   table_ok 10 0 (xents (sample LF)) = true /\ table_ok 10 0 (xents (sample CR)) = true /\
@@ -117,6 +133,7 @@ Proof. vm_compute. repeat split; congruence. Qed.
 Example C18_sample_wf : forall e, wf (sample e).
 Proof.
   intros e. constructor.
+  - reflexivity.
   - reflexivity.
   - reflexivity.
   - reflexivity.
